@@ -24,6 +24,9 @@
 #ifndef OVERRIDES
 #define OVERRIDES 15     // bit 0: A without f; bit 1: A::f `void f()` / B::f `virtual void f() = 0`; bit 2: `B *f()` in both
 #endif                   // (identical return type); bit 3: `A *f()` against `virtual B *f() = 0` (covariant return type)
+#ifndef DTKINDS
+#define DTKINDS 0x1f     // destructor kinds of B to go through when ~B() is declared: bit k-1 for K_USER .. K_PURE
+#endif
 #ifndef CHECKS
 #define CHECKS 0x1f      // 1 default-constructible, 2 copy-constructible, 4 destructible, 8 abstract, 16 polymorphic
 #endif
@@ -141,6 +144,7 @@ NOINL static void check_pair(int presence, int ov) {
       if (!cc && cck != K_USER) continue;
       for (int dtk = K_USER; dtk <= K_PURE; dtk++) {
         if (!dt && dtk != K_USER) continue;
+        if (dt && !((DTKINDS >> (dtk - 1)) & 1)) continue;
         if (dc) { b.dc = dck; b.dc_vis = pick_vis(); dc->_storage_class = storage_of(dck); dc->_vis = (CPPVisibility)b.dc_vis; }
         if (cc) { b.cc = cck; b.cc_vis = pick_vis(); cc->_storage_class = storage_of(cck); cc->_vis = (CPPVisibility)b.cc_vis; }
         if (dt) { b.dt = dtk; b.dt_vis = pick_vis(); dt->_storage_class = storage_of(dtk); dt->_vis = (CPPVisibility)b.dt_vis; }
